@@ -60,7 +60,11 @@ pub enum TimeBase {
 pub enum Op {
     Update(UpdateOp),
     /// apply the update at the (skip+1)-th coming database lock point whose site contains `site`
-    UpdateAtLock { site: String, skip: u8, update: UpdateOp },
+    UpdateAtLock {
+        site: String,
+        skip: u8,
+        update: UpdateOp,
+    },
     Request {
         func: u8,
         seq: SeqSel,
@@ -71,14 +75,28 @@ pub enum Op {
         to: Dest,
     },
     /// raw application fragment octets
-    Raw { bytes: Vec<u8>, from: Who, to: Dest },
-    Confirm { uns: bool, seq: ConfSel, from: Who },
+    Raw {
+        bytes: Vec<u8>,
+        from: Who,
+        to: Dest,
+    },
+    Confirm {
+        uns: bool,
+        seq: ConfSel,
+        from: Who,
+    },
     /// re-send the previous Request/Raw octets unchanged
     Repeat,
     Sleep(u64),
     /// sleep until `base + delta` after the reference instant (`since_last_tx`: last transmission of the outstation, else now)
-    SleepRel { base: TimeBase, delta_ms: i64, since_last_tx: bool },
-    Disconnect { eof: bool },
+    SleepRel {
+        base: TimeBase,
+        delta_ms: i64,
+        since_last_tx: bool,
+    },
+    Disconnect {
+        eof: bool,
+    },
     Connect,
     SetAppIin(u8),
     LinkStatusRequest,
@@ -103,7 +121,13 @@ pub enum TL {
     /// the session is about to take the database lock at this site (site, world-wide order)
     Lock(&'static str, u64),
     /// a user transaction applied this update (at_lock = injected at a lock point)
-    Update { op: UpdateOp, info: UpdateInfo, at_lock: bool, t_ms: u64, order: u64 },
+    Update {
+        op: UpdateOp,
+        info: UpdateInfo,
+        at_lock: bool,
+        t_ms: u64,
+        order: u64,
+    },
 }
 
 #[derive(Clone, Debug)]
@@ -144,17 +168,28 @@ pub struct Step {
 /// The newest event id that existed when the session took the database lock to write the fragment transmitted at world
 /// order `rx_order` in this step (`newest_before_step` = newest id before the step's transactions). `None` = the fragment was
 /// not written in this step (a copy of an earlier one) or no event existed: no restriction.
-pub fn newest_event_at_write(step: &Step, rx_order: u64, newest_before_step: Option<u64>) -> Option<u64> {
+pub fn newest_event_at_write(
+    step: &Step,
+    rx_order: u64,
+    newest_before_step: Option<u64>,
+) -> Option<u64> {
     let mut cur = newest_before_step;
     let mut at_write: Option<Option<u64>> = None;
     for tl in &step.timeline {
         match tl {
             TL::Update { info, order, .. } if *order < rx_order => match info {
                 UpdateInfo::Created(id) => cur = Some(cur.map(|c| c.max(*id)).unwrap_or(*id)),
-                UpdateInfo::Overflow { created, .. } => cur = Some(cur.map(|c| c.max(*created)).unwrap_or(*created)),
+                UpdateInfo::Overflow { created, .. } => {
+                    cur = Some(cur.map(|c| c.max(*created)).unwrap_or(*created))
+                }
                 _ => {}
             },
-            TL::Lock(site, order) if *order < rx_order && (*site == "write_unsolicited" || *site == "write_response_headers") => at_write = Some(cur),
+            TL::Lock(site, order)
+                if *order < rx_order
+                    && (*site == "write_unsolicited" || *site == "write_response_headers") =>
+            {
+                at_write = Some(cur)
+            }
             _ => {}
         }
     }
@@ -239,14 +274,21 @@ pub async fn drive(sim: &Sim, case: &SoutCase, oracle: &mut dyn Oracle) -> RunSu
                     if q.pending[i].1 == 0 {
                         let (_, _, op) = q.pending.remove(i).unwrap();
                         let info = db.transaction(|d| op.apply(d));
-                        let t = crate::verif::kernel::current().map(|c| c.now_ms()).unwrap_or(0);
+                        let t = crate::verif::kernel::current()
+                            .map(|c| c.now_ms())
+                            .unwrap_or(0);
                         if let Some(core) = crate::verif::kernel::current() {
                             core.count("fault.update_at_lock_point", 1);
                             if core.log_enabled() {
-                                core.log(format!("  user transaction at lock point '{}': {:?} -> {:?}", site, op, info));
+                                core.log(format!(
+                                    "  user transaction at lock point '{}': {:?} -> {:?}",
+                                    site, op, info
+                                ));
                             }
                         }
-                        let order = crate::verif::kernel::current().map(|c| c.next_order()).unwrap_or(0);
+                        let order = crate::verif::kernel::current()
+                            .map(|c| c.next_order())
+                            .unwrap_or(0);
                         q.timeline.push(TL::Update {
                             op,
                             info,
@@ -261,7 +303,9 @@ pub async fn drive(sim: &Sim, case: &SoutCase, oracle: &mut dyn Oracle) -> RunSu
                 }
                 i += 1;
             }
-            let order = crate::verif::kernel::current().map(|c| c.next_order()).unwrap_or(0);
+            let order = crate::verif::kernel::current()
+                .map(|c| c.next_order())
+                .unwrap_or(0);
             q.timeline.push(TL::Lock(site, order));
         }));
     }
@@ -301,7 +345,8 @@ pub async fn drive(sim: &Sim, case: &SoutCase, oracle: &mut dyn Oracle) -> RunSu
         let mut disconnected = false;
         // leftovers queued for lock points that never came are applied now (a timed user actor)
         {
-            let leftovers: Vec<(String, u8, UpdateOp)> = lockq.lock().unwrap().pending.drain(..).collect();
+            let leftovers: Vec<(String, u8, UpdateOp)> =
+                lockq.lock().unwrap().pending.drain(..).collect();
             for (_, _, u) in leftovers {
                 let info = node.handle.transaction(|d| u.apply(d));
                 sim.log(|| format!("user transaction (queued for a lock point that did not come): {:?} -> {:?}", u, info));
@@ -327,9 +372,20 @@ pub async fn drive(sim: &Sim, case: &SoutCase, oracle: &mut dyn Oracle) -> RunSu
                 });
             }
             Op::UpdateAtLock { site, skip, update } => {
-                lockq.lock().unwrap().pending.push_back((site.clone(), *skip, update.clone()));
+                lockq
+                    .lock()
+                    .unwrap()
+                    .pending
+                    .push_back((site.clone(), *skip, update.clone()));
             }
-            Op::Request { func, seq, headers, flags, from, to } => {
+            Op::Request {
+                func,
+                seq,
+                headers,
+                flags,
+                from,
+                to,
+            } => {
                 let s = match seq {
                     SeqSel::Next => {
                         let s = world.app_seq;
@@ -373,7 +429,12 @@ pub async fn drive(sim: &Sim, case: &SoutCase, oracle: &mut dyn Oracle) -> RunSu
                 });
             }
             Op::Confirm { uns, seq, from } => {
-                let expected = if *uns { world.unsol_confirm_seq } else { world.sol_confirm_seq }.unwrap_or(0);
+                let expected = if *uns {
+                    world.unsol_confirm_seq
+                } else {
+                    world.sol_confirm_seq
+                }
+                .unwrap_or(0);
                 let s = match seq {
                     ConfSel::Expected => expected,
                     ConfSel::Offset(o) => (expected + o) & 0x0F,
@@ -384,7 +445,12 @@ pub async fn drive(sim: &Sim, case: &SoutCase, oracle: &mut dyn Oracle) -> RunSu
                 let dest = world.cfg.outstation_addr;
                 let wire = peer.encode_fragment(src, dest, &bytes);
                 io::chan_push(&node.to_out, sim.now_ms(), wire);
-                sim.log(|| format!("peer -> outstation CONFIRM uns={} seq={} from {}", uns, s, src));
+                sim.log(|| {
+                    format!(
+                        "peer -> outstation CONFIRM uns={} seq={} from {}",
+                        uns, s, src
+                    )
+                });
                 sent = Some(SentFragment {
                     bytes,
                     src,
@@ -396,7 +462,12 @@ pub async fn drive(sim: &Sim, case: &SoutCase, oracle: &mut dyn Oracle) -> RunSu
                 if let Some((bytes, src, dest)) = world.last_request.clone() {
                     let wire = peer.encode_fragment(src, dest, &bytes);
                     io::chan_push(&node.to_out, sim.now_ms(), wire);
-                    sim.log(|| format!("peer -> outstation REPEAT of previous request ({} octets)", bytes.len()));
+                    sim.log(|| {
+                        format!(
+                            "peer -> outstation REPEAT of previous request ({} octets)",
+                            bytes.len()
+                        )
+                    });
                     sim.count("fault.dup_msg");
                     sent = Some(SentFragment {
                         bytes,
@@ -411,13 +482,21 @@ pub async fn drive(sim: &Sim, case: &SoutCase, oracle: &mut dyn Oracle) -> RunSu
                     sim.sleep_ms(*ms).await;
                 }
             }
-            Op::SleepRel { base, delta_ms, since_last_tx } => {
+            Op::SleepRel {
+                base,
+                delta_ms,
+                since_last_tx,
+            } => {
                 let b = match base {
                     TimeBase::ConfirmTimeout => world.cfg.confirm_timeout_ms,
                     TimeBase::SelectTimeout => world.cfg.select_timeout_ms,
                     TimeBase::RetryDelay => world.cfg.unsol_retry_delay_ms,
                 } as i64;
-                let reference = if *since_last_tx { world.last_tx_ms } else { sim.now_ms() } as i64;
+                let reference = if *since_last_tx {
+                    world.last_tx_ms
+                } else {
+                    sim.now_ms()
+                } as i64;
                 let target = reference + b + delta_ms;
                 let now = sim.now_ms() as i64;
                 if target > now {
@@ -426,7 +505,11 @@ pub async fn drive(sim: &Sim, case: &SoutCase, oracle: &mut dyn Oracle) -> RunSu
             }
             Op::Disconnect { eof } => {
                 if node.connected {
-                    node.disconnect(if *eof { CloseKind::Eof } else { CloseKind::Reset });
+                    node.disconnect(if *eof {
+                        CloseKind::Eof
+                    } else {
+                        CloseKind::Reset
+                    });
                     peer.reset();
                     disconnected = true;
                     sim.count("fault.cut");
@@ -439,7 +522,8 @@ pub async fn drive(sim: &Sim, case: &SoutCase, oracle: &mut dyn Oracle) -> RunSu
                     sim.count("fault.preempt");
                     disconnected = true;
                 }
-                node.connect(chunk, case.chunk_seed.wrapping_add(world.session_no as u64)).await;
+                node.connect(chunk, case.chunk_seed.wrapping_add(world.session_no as u64))
+                    .await;
                 peer.reset();
                 world.session_no += 1;
                 world.sol_confirm_seq = None;
@@ -455,7 +539,8 @@ pub async fn drive(sim: &Sim, case: &SoutCase, oracle: &mut dyn Oracle) -> RunSu
                 r.app_iin.config_corrupt = bits & 8 != 0;
             }
             Op::LinkStatusRequest => {
-                let wire = peer.encode_link_status_request(world.cfg.master_addr, world.cfg.outstation_addr);
+                let wire = peer
+                    .encode_link_status_request(world.cfg.master_addr, world.cfg.outstation_addr);
                 io::chan_push(&node.to_out, sim.now_ms(), wire);
             }
             Op::WireBytes(b) => {
@@ -475,7 +560,11 @@ pub async fn drive(sim: &Sim, case: &SoutCase, oracle: &mut dyn Oracle) -> RunSu
         sim.settle().await;
 
         // collect observations
-        let received = if node.connected || disconnected { peer.poll(&node.from_out) } else { Vec::new() };
+        let received = if node.connected || disconnected {
+            peer.poll(&node.from_out)
+        } else {
+            Vec::new()
+        };
         for r in &received {
             world.last_tx_ms = r.t_ms;
             if let Some(f) = &r.frag {
@@ -487,7 +576,13 @@ pub async fn drive(sim: &Sim, case: &SoutCase, oracle: &mut dyn Oracle) -> RunSu
                     }
                 }
             }
-            sim.log(|| format!("outstation -> peer fragment at {} ms: {}", r.t_ms, io::hex(&r.bytes)));
+            sim.log(|| {
+                format!(
+                    "outstation -> peer fragment at {} ms: {}",
+                    r.t_ms,
+                    io::hex(&r.bytes)
+                )
+            });
         }
         let callbacks = node.callbacks_since(cb_seen);
         let callback_orders = node.callback_orders_since(cb_seen);
@@ -532,7 +627,15 @@ pub async fn drive(sim: &Sim, case: &SoutCase, oracle: &mut dyn Oracle) -> RunSu
     }
 }
 
-fn send_fragment(sim: &Sim, node: &mut OutNode, peer: &mut PeerLink, world: &mut World, bytes: &[u8], src: u16, dest: u16) {
+fn send_fragment(
+    sim: &Sim,
+    node: &mut OutNode,
+    peer: &mut PeerLink,
+    world: &mut World,
+    bytes: &[u8],
+    src: u16,
+    dest: u16,
+) {
     let wire = peer.encode_fragment(src, dest, bytes);
     io::chan_push(&node.to_out, sim.now_ms(), wire);
     world.last_request = Some((bytes.to_vec(), src, dest));
@@ -551,7 +654,13 @@ pub struct OracleReport {
     pub counters: Vec<(String, u64)>,
 }
 
-pub fn execute<O, F>(prop: &'static str, case: &SoutCase, sched_seed: u64, log: bool, make_oracle: F) -> Outcome
+pub fn execute<O, F>(
+    prop: &'static str,
+    case: &SoutCase,
+    sched_seed: u64,
+    log: bool,
+    make_oracle: F,
+) -> Outcome
 where
     O: Oracle + 'static,
     F: FnOnce(&SoutCase) -> O + 'static,
@@ -595,12 +704,16 @@ where
             outcome.count(k, *v);
         }
     }
-    outcome.count("fault.rechunk", report.counters.get("phys_reads").copied().unwrap_or(0));
+    outcome.count(
+        "fault.rechunk",
+        report.counters.get("phys_reads").copied().unwrap_or(0),
+    );
     match &report.exit {
         Exit::Done => {}
         Exit::Panic(task, msg, loc) => {
             if loc.contains("/verif/") {
-                outcome.harness_error = Some(format!("harness panic in {}: {} at {}", task, msg, loc));
+                outcome.harness_error =
+                    Some(format!("harness panic in {}: {} at {}", task, msg, loc));
             } else {
                 let short = loc.rsplit("/dnp3/src/").next().unwrap_or(loc).to_string();
                 outcome.violation = Some(Violation::new(
@@ -620,7 +733,10 @@ where
             return outcome;
         }
         other => {
-            outcome.harness_error = Some(format!("run ended with {:?} (script too long for the step/time cap?)", other));
+            outcome.harness_error = Some(format!(
+                "run ended with {:?} (script too long for the step/time cap?)",
+                other
+            ));
             return outcome;
         }
     }
